@@ -13,10 +13,11 @@ cd $wt || exit 2
 git checkout -q -- . ; git clean -fdq -e _out
 cp $d/demo_test.go.txt zz_demo_test.go
 name="($(grep -o 'func Test[A-Za-z0-9_]*' zz_demo_test.go | sed 's/func //' | paste -sd'|'))"
-timeout 300 go test -vet=off -count=1 -run "^$name\$" . > $d/.clean.log 2>&1; clean=$?
+RACE=""; grep -q 'needs -race' zz_demo_test.go && RACE="-race"
+timeout 300 go test $RACE -vet=off -count=1 -run "^$name\$" . > $d/.clean.log 2>&1; clean=$?
 git apply $d/patch.diff || { echo "$P: PATCH DOES NOT APPLY"; exit 1; }
 go build ./... > $d/.build.log 2>&1; build=$?
-timeout 300 go test -vet=off -count=1 -run "^$name\$" . > $d/.mut.log 2>&1; mut=$?
+timeout 300 go test $RACE -vet=off -count=1 -run "^$name\$" . > $d/.mut.log 2>&1; mut=$?
 rm -f zz_demo_test.go
 timeout 600 go test -vet=off -count=1 ./... > $d/.suite.log 2>&1; suite=$?
 git checkout -q -- . ; git clean -fdq -e _out
